@@ -122,9 +122,50 @@ def bfs_dist(adj, s):
     return dist
 
 
+# ------------------------------------------------------------------------------------------------
+# second tie (DESIGN 2.6): FlowDemux.put / FIBDemux.put translated from the tree under test on every run
+# (vlib/translate.py, fail closed) into coq/Gen/Extracted_demux.v; bridged to flowdemux / fibdemux of
+# Route/Demux.v by coq/Route/DemuxBridge.v; obligations in Props/C18_Bridge.v.
+
+DEMUX_CONS = [("FxOut", "(i : Z)"),            # self.outs[i].put(packet)
+              ("FxDefault", ""),               # self.default_out.put(packet)
+              ("FxRaiseValueError", ""),       # raise ValueError('fib of FIBDemux is None')
+              ("FxEnd", ""),                   # self.ends[flow_id].put(packet)
+              ("FxLookup", ""),                # the try block: out = outs[self._fib[flow_id]], on KeyError/IndexError/ValueError out = default_out
+              ("FxPutOut", "")]                # out.put(packet)   (outside the try)
+FIB_TRY = """try:
+    outs = self.outs if self.outs is not None else []
+    out = outs[self._fib[packet.flow_id]]
+except (KeyError, IndexError, ValueError) as exc:
+    print("FIB Demux Error: " + str(exc))
+    out = self.default_out"""
+DEMUX_FX = [("self.outs[_1].put(packet)", "FxOut", ["Z"]),
+            ("self.default_out.put(packet)", "FxDefault", []),
+            ("raise ValueError('fib of FIBDemux is None')", "FxRaiseValueError", []),
+            ("self.ends[flow_id].put(packet)", "FxEnd", []),
+            (FIB_TRY, "FxLookup", []),
+            ("out.put(packet)", "FxPutOut", [])]
+FLOW_READS = [("packet.flow_id", "flow_id", "Z"), ("self.outs", "n_outs", "len"),
+              ("self.default_out", "has_default", "optobj")]       # None or a Device (default truthiness)
+FIB_READS = [("self._fib", "has_fib", "optref"),                   # None or a dict: only `is None` is translated
+             ("flow_id in self.ends", "in_ends", "bool"),
+             ("packet.flow_id", "flow_id", "Z"),
+             ("out", "out_given", "bool", "needs:FxLookup")]       # truthiness of what the try block chose (a Device or None)
+
+
+def extracted_demux(repo):
+    import os
+    from vlib import translate as tr
+    path = os.path.join(repo, "onl", "netdev", "demux.py")
+    specs = [tr.FnSpec(path, "FlowDemux", "put", "gen_FlowDemux_put", reads=FLOW_READS, effects=DEMUX_FX),
+             tr.FnSpec(path, "FIBDemux", "put", "gen_FIBDemux_put", reads=FIB_READS, effects=DEMUX_FX)]
+    return tr.gen_module("onl/netdev/demux.py: FlowDemux.put, FIBDemux.put", "demux_st", "d_", [("packets_recevied", "Z")],
+                         "demux_fx", DEMUX_CONS, specs)
+
+
 class C18(Prop):
     id = "C18"
-    props_file = "Props/C18.v"
+    props_file = ["Props/C18.v", "Props/C18_Bridge.v"]
     coq_imports = ["From ONL Require Import Base.Cmp Route.Demux Route.Hub Route.FatTree Route.Fib."]
     n_quick = 640
     n_thorough = 6000
@@ -143,6 +184,10 @@ class C18(Prop):
         "recorders stand in for outputs, end devices, hub endpoints and hub port devices; in the 'switch' kind and the e2e variant 'fair' the "
         "schedulers inside FairPacketSwitch are replaced by taps (their behaviour belongs to C12-C15); the e2e variant 'fair-real' runs them",
         "object identity is observed with `is` and replaced by creation indices",
+        "vlib/translate.py (Python ast, fail closed; observation/effect tables above the plugin class in props/c18.py) regenerates "
+        "coq/Gen/Extracted_demux.v from FlowDemux.put / FIBDemux.put of the tree under test before every build; the C18_gen_* theorems "
+        "(Props/C18_Bridge.v) bridge them to flowdemux / fibdemux of the hand-written model; FIBDemux's try block (the table and list "
+        "lookup with its except clause) is matched as ONE whitelisted statement whose meaning is the model's lookup",
         "networkx (Graph adjacency order, all_shortest_paths) and random.sample are run, not modelled: every generated path is validated "
         "in Coq against the model of the fat tree (walk, simple, length = hostdist)",
     ]
@@ -155,6 +200,13 @@ class C18(Prop):
         "that networkx.all_shortest_paths returns shortest paths is not a theorem about networkx: each generated path is checked per run "
         "(Coq-evaluated path_ok: walk in fattree k, simple, length = hostdist k src dst), and hostdist is proved to be the graph distance of the model",
     ]
+
+    # ---- second tie: regenerate the translated bodies before the Coq build (fail closed) ---------------
+    def pre_build(self):
+        import os
+        from vlib import framework as fw
+        from vlib import translate as tr
+        tr.write_if_changed(os.path.join(fw.COQ, "Gen", "Extracted_demux.v"), extracted_demux(fw.REPO))
 
     # ============================================================================================
     # generation
